@@ -301,6 +301,91 @@ theorem encStep_genPair (s : State) (h m : Nat) (p v : Template) (o : RV) : EncS
   unfold stepGenPair
   repeat' (first | exact encStep_same rfl | exact encStep_genPairFinish _ _ _ _ _ _ _ _ _ _ _ _ | apply encStep_ite | split | extract_lets)
 
+/-! ### C_UnwrapKey / C_DeriveKey: the new key's value is stored encrypted exactly when the key is private -/
+
+def AddsEnc (s : State) (r : State × Resp) : Prop := r.1.objs = s.objs ∨ ∃ slot h t p a, r.1 = (addObject s slot h t p a).1 ∧ EncOK p a
+
+theorem addsEnc_rOnly (s : State) (rv : RV) : AddsEnc s (rOnly s rv) := Or.inl rfl
+theorem addsEnc_bump (s : State) (x : Resp) : AddsEnc s ({ s with counter := s.counter + 1 }, x) := Or.inl rfl
+theorem addsEnc_ite {s : State} (c : Prop) [Decidable c] (a b : State × Resp) (ha : AddsEnc s a) (hb : AddsEnc s b) : AddsEnc s (if c then a else b) := by
+  split <;> assumption
+theorem addsEnc_add (s : State) (slot h : Nat) (t p : Bool) (a : Attrs) (x : Resp) (ha : EncOK p a) : AddsEnc s ((addObject s slot h t p a).1, x) :=
+  Or.inr ⟨slot, h, t, p, a, rfl, ha⟩
+
+theorem AddsEnc.encStep {s : State} {r : State × Resp} (h : AddsEnc s r) : EncStep s r.1 := by
+  rcases h with h | ⟨slot, hh, t, p, a, h, ha⟩
+  · exact encStep_same h
+  · rw [h]; exact encStep_addObject _ _ _ _ _ _ ha
+
+/-- the attribute writes of the unwrap / derive tails keep the rule: booleans, unknowns, and a value flagged with the key's privacy -/
+theorem encOK_tail {p : Bool} {a : Attrs} (h : EncOK p a) (v : AVal) (hv : valOK p v) (tys : List Nat) :
+    EncOK p (markUnk (setA (setA (setA (setA a CKA.LOCAL (.bool false)) CKA.ALWAYS_SENSITIVE (.bool false)) CKA.NEVER_EXTRACTABLE (.bool false)) CKA.VALUE v) tys) :=
+  encOK_markUnk _ (encOK_setA (encOK_setA (encOK_setA (encOK_setA h _ (.bool false) trivial) _ (.bool false) trivial) _ (.bool false) trivial) _ v hv)
+
+theorem addsEnc_unwrapFinish (s : State) (slot h cls kt : Nat) (a b c : Bool) (t : Template) (kd : Option (Except RV Bytes)) (rv : RV) :
+    AddsEnc s (unwrapFinish s slot h cls kt a b c t kd rv) := by
+  unfold unwrapFinish
+  cases hcd : findClass cls kt 0 with
+  | none => exact addsEnc_rOnly _ _
+  | some cd =>
+    dsimp only
+    have hc := class_ok (findClass_mem hcd)
+    cases hst : saveTemplate cd (initAttrs cd) (reorderTpl (keyTemplate cls kt a b t [])) OP.UNWRAP b c rv with
+    | error e => exact addsEnc_rOnly _ _
+    | ok attrs =>
+      dsimp only
+      have h0 := saveTemplate_enc _ _ _ _ _ _ _ hc.1 (hc.2 b) _ hst
+      have h1 := encOK_setA (encOK_setA (encOK_setA h0 CKA.LOCAL (.bool false) trivial) CKA.ALWAYS_SENSITIVE (.bool false) trivial) CKA.NEVER_EXTRACTABLE (.bool false) trivial
+      split
+      · refine addsEnc_add _ _ _ _ _ _ _ (encOK_setA h1 _ _ ?_)
+        split
+        · exact Or.inr rfl
+        · trivial
+      · split
+        · exact addsEnc_rOnly _ _
+        · exact addsEnc_add _ _ _ _ _ _ _ (encOK_markUnk _ h1)
+
+theorem valOK_deriveValue (s : State) (mech : Nat) (p : MParam) (bk : Obj) (kt vl : Nat) (isPriv : Bool) : valOK isPriv (deriveValue s mech p bk kt vl isPriv) := by
+  unfold deriveValue
+  repeat' (first | trivial | exact Or.inr rfl | split | extract_lets)
+
+theorem encOK_deriveFlags {p : Bool} {a : Attrs} (h : EncOK p a) (m : Nat) (ba : Attrs) (oa : Option Attrs) : EncOK p (deriveFlags m ba oa a) := by
+  unfold deriveFlags
+  split
+  · split
+    · exact encOK_markUnk _ h
+    · dsimp only
+      refine encOK_setA (encOK_setA ?_ _ (.bool _) trivial) _ (.bool _) trivial
+      refine encOK_iteSet (encOK_iteSet h _ _ (.bool true) trivial) _ _ (.bool false) trivial
+  · split
+    · dsimp only
+      refine encOK_setA (encOK_setA ?_ _ (.bool _) trivial) _ (.bool _) trivial
+      refine encOK_iteSet (encOK_iteSet h _ _ (.bool true) trivial) _ _ (.bool false) trivial
+    · exact encOK_setA (encOK_setA h _ (.bool _) trivial) _ (.bool _) trivial
+
+theorem addsEnc_deriveFinish (s : State) (slot h cls kt : Nat) (a b c : Bool) (t : Template) (v : AVal) (m : Nat) (ba : Attrs) (oa : Option Attrs) (hv : valOK b v) :
+    AddsEnc s (deriveFinish s slot h cls kt a b c t v m ba oa) := by
+  unfold deriveFinish
+  cases hcd : findClass cls kt 0 with
+  | none => exact addsEnc_rOnly _ _
+  | some cd =>
+    dsimp only
+    have hc := class_ok (findClass_mem hcd)
+    cases hst : saveTemplate cd (initAttrs cd) (reorderTpl (keyTemplate cls kt a b t [CKA.CHECK_VALUE])) OP.DERIVE b c CKR.OK with
+    | error e => exact addsEnc_rOnly _ _
+    | ok attrs =>
+      dsimp only
+      have h0 := saveTemplate_enc _ _ _ _ _ _ _ hc.1 (hc.2 b) _ hst
+      exact addsEnc_add _ _ _ _ _ _ _ (encOK_markUnk _ (encOK_setA (encOK_deriveFlags (encOK_setA h0 CKA.LOCAL (.bool false) trivial) _ _ _) _ _ hv))
+
+theorem addsEnc_unwrap (s : State) (h m : Nat) (p : MParam) (uk : Nat) (b : Option Bytes) (t : Template) (rv : RV) : AddsEnc s (stepUnwrap s h m p uk b t rv) := by
+  unfold stepUnwrap
+  repeat' (first | exact addsEnc_rOnly _ _ | exact addsEnc_unwrapFinish _ _ _ _ _ _ _ _ _ _ _ | apply addsEnc_ite | split | extract_lets)
+
+theorem addsEnc_derive (s : State) (h m : Nat) (p : MParam) (bk : Nat) (t : Template) (rv : RV) : AddsEnc s (stepDerive s h m p bk t rv) := by
+  unfold stepDerive
+  repeat' (first | exact addsEnc_rOnly _ _ | exact addsEnc_bump _ _ | exact addsEnc_deriveFinish _ _ _ _ _ _ _ _ _ _ _ _ _ (valOK_deriveValue _ _ _ _ _ _ _) | apply addsEnc_ite | split | extract_lets)
+
 theorem encStep_stepOp (s : State) (c : OpCall) : EncStep s (stepOp s c).1 := by
   cases c <;> simp only [stepOp]
   case cfgMechs => exact encStep_same rfl
@@ -321,6 +406,9 @@ theorem encStep_stepOp (s : State) (c : OpCall) : EncStep s (stepOp s c).1 := by
   case verifyFinal => exact encStep_same (onlyHandles_verify ..).1
   case genKey => exact encStep_genKey _ _ _ _ _
   case genPair => exact encStep_genPair _ _ _ _ _ _
+  case wrap => rw [adds_wrap]; exact encStep_same rfl
+  case unwrap => exact (addsEnc_unwrap _ _ _ _ _ _ _ _).encStep
+  case derive => exact (addsEnc_derive _ _ _ _ _ _ _).encStep
 
 theorem encStep_restart (s : State) : EncStep s (stepRestart s).1 := by
   unfold stepRestart stepFinalize
